@@ -156,6 +156,8 @@ pub fn gen_config(prop: &str, tier: Tier, rng: &mut Rng) -> Config {
             }
             c.advance = true;
             c.race_q = 0;
+            // stop is part of the command alphabet too (what follows it is C06's business)
+            c.stop = rng.chance(1, 5);
         }
         "C06" => {
             c.workers = rng.range(1, 2) as usize;
@@ -380,7 +382,9 @@ pub fn after_accept_step(sh: &Rc<Shared>, acc: &SteppedAccept, paused_before: bo
         let _ = paused_before;
         if let Some((tok, errno)) = sh.fault_fired_in_step.get() {
             let l = sh.token_of_listener.borrow().iter().position(|t| *t == tok).unwrap_or(0);
-            if CONN_ERRNOS.contains(&errno) {
+            if CONN_ERRNOS.contains(&errno) && !acc.alive() {
+                // the loop ended in this very iteration (it processed Stop): nothing to judge
+            } else if CONN_ERRNOS.contains(&errno) {
                 sh.ctx(|ctx| ctx.bump("probe.per_connection_error_handled"));
                 if acc.timeout() != timeout_before && timeout_before.is_none() {
                     sh.violate(
@@ -561,6 +565,29 @@ pub fn on_stop_resolved(sim: &mut Sim, _i: usize) {
 pub fn at_quiescence(sim: &mut Sim) {
     let sh = sim.sh.clone();
     let prop = sh.prop.as_str();
+    if prop == "C05" && !sim.ack_futs.is_empty() && !sim.o.stop_issued && sim.server.is_some() {
+        // pause()/resume() futures only await the acknowledgement: at quiescence the server (or its
+        // end) has answered every command issued so far
+        let w = std::task::Waker::noop();
+        let mut cx = std::task::Context::from_waker(&w);
+        let mut pending = 0;
+        sim.ack_futs.retain_mut(|(f, _)| {
+            if f.as_mut().poll(&mut cx).is_ready() {
+                false
+            } else {
+                pending += 1;
+                true
+            }
+        });
+        if pending > 0 {
+            sh.violate(Violation::new(
+                "command-not-acknowledged",
+                format!("{pending} pause()/resume() future(s) are unresolved at quiescence although the server has processed its command queue"),
+            ));
+            return;
+        }
+        sh.ctx(|ctx| ctx.bump("probe.commands_acknowledged"));
+    }
     if sim.server.is_none() && sim.o.t_server_done.is_some() && !sh.stop_done.get() {
         check_graceful_not_early(sim, "the Server future");
         sh.stop_done.set(true);
@@ -1103,7 +1130,7 @@ pub fn required_probes(prop: &str, tier: Tier) -> Vec<&'static str> {
         "C03" => vec!["probe.quiescent_with_backlog", "probe.quiescence_judged"],
         "C01" => vec!["probe.queued_conn_released_on_shutdown", "probe.race_window_progress"],
         "C04" => vec!["probe.rr_window_checked", "probe.rr_window_from_quiescence", "probe.bitset_runs"],
-        "C05" => vec!["probe.backoff_armed", "probe.per_connection_error_handled", "cmd.pause", "cmd.resume"],
+        "C05" => vec!["probe.backoff_armed", "probe.per_connection_error_handled", "probe.commands_acknowledged", "cmd.pause", "cmd.resume"],
         "C06" => vec!["probe.stop_completed", "probe.graceful_stop_with_connections", "probe.forced_stop_with_connections", "probe.forced_stop_judged", "probe.second_stop"],
         "C07" => vec!["probe.call_after_ready_round", "probe.service_restarted", "probe.queue_order_checked"],
         "C08" => vec!["probe.send_failed_discovered", "probe.replacement_in_rotation", "probe.replacement_served"],
